@@ -213,6 +213,11 @@ pub enum Case8 {
 /// multi-byte character of the commands has its first byte(s) before byte offset `boundary` and the rest after it
 pub fn big_file_text(cmds: &[RCmd], boundary: usize, pick: u16) -> Option<String> {
     let (body, _) = render_noisy(cmds, &[]);
+    pad_to_boundary(&body, boundary, pick)
+}
+
+/// ASCII filler + `body`, sized so that the `pick`-th multi-byte character of `body` lies across byte offset `boundary`
+pub fn pad_to_boundary(body: &str, boundary: usize, pick: u16) -> Option<String> {
     let multi: Vec<(usize, usize)> = body.char_indices().filter(|(_, c)| c.len_utf8() > 1).map(|(o, c)| (o, c.len_utf8())).collect();
     if multi.is_empty() {
         return None;
@@ -231,7 +236,7 @@ pub fn big_file_text(cmds: &[RCmd], boundary: usize, pick: u16) -> Option<String
     while s.len() < fill {
         s.push(' ');
     }
-    s.push_str(&body);
+    s.push_str(body);
     debug_assert!(!s.is_char_boundary(boundary));
     Some(s)
 }
@@ -287,7 +292,7 @@ fn same_commands(got: &[hyeong::core::code::UnOptCode], cmds: &[RCmd], sig: &str
 /// parse one line of the `check` listing: (index, line, col, kind, h, d, area).
 /// Tolerant of the cosmetic parts (separators, padding, file name): the index is the leading integer, the command is the first
 /// `<syllable>_<digits>_<digits> <area>` token, line and column are the last two `:`-separated integers in front of it.
-fn parse_listing_line(line: &str, _file_name: &str) -> Option<(usize, usize, usize, u8, usize, usize, RArea)> {
+pub fn parse_listing_line(line: &str, _file_name: &str) -> Option<(usize, usize, usize, u8, usize, usize, RArea)> {
     let t = line.trim_start();
     let digits: String = t.chars().take_while(|c| c.is_ascii_digit()).collect();
     let idx: usize = digits.parse().ok()?;
